@@ -312,7 +312,11 @@ class Server(base_server.BaseServer):
                     r = self._ok(jsonp_index=jsonp_index)
                 except exceptions.EngineIOError:
                     if sid in self.sockets:  # pragma: no cover
-                        self.disconnect(sid)
+                        # protocol error: end the session without waiting for
+                        # the client to collect the CLOSE packet
+                        socket.close(wait=False,
+                                     reason=self.reason.SERVER_DISCONNECT)
+                        self.sockets.pop(sid, None)
                     r = self._bad_request()
                 except:  # pragma: no cover
                     # for any other unexpected errors, we log the error
